@@ -45,8 +45,11 @@ def run_A(root, A, extra_options=None):
 
     keep = []
 
+    order = []
+
     def correlate(self):
         keep.append(self)
+        order.extend(m.name for m in self.modules)
         for m in self.modules:
             for e in A["modules"]:
                 if e["name"] == m.name:
@@ -83,7 +86,7 @@ def run_A(root, A, extra_options=None):
     mj = pathlib.Path(root) / "doc" / "modules.json"
     content = json.loads(mj.read_text()) if (not err and mj.exists()) else None
     extra_pages = [f"{d}/{_ident(keep, pid)}.html" for pid, d, n in log if pid in fresh and d != "None"] if keep else []
-    return err, pre1, content, out, sorted(set(extra_pages))
+    return err, pre1, content, out, sorted(set(extra_pages)), order
 
 
 def _ident(keep, pid):
@@ -188,8 +191,8 @@ def coq_xval(o, top=True):
         raise TypeError(type(o))
     attrs = []
     for k in ATTR_ORDER:
-        if k in vars(o):
-            v = vars(o)[k]
+        if k in vars(o) or (k == "permission" and "_permission" in vars(o)):
+            v = vars(o)[k] if k in vars(o) else vars(o)["_permission"]
             if isinstance(v, list):
                 t = "(XL [" + "; ".join(coq_xval(i) for i in v) + "])"
             elif isinstance(v, dict):
